@@ -2,7 +2,9 @@
 
 Runtime contracts on the real `mistletoe.markdown_renderer.MarkdownRenderer`:
 
-  for x in SPEC (652 CommonMark 0.30 examples) + DOCS (runtime/mdgen.py, modes 'free' and 'normal'),
+  for x in SPEC (652 CommonMark 0.30 examples) + DIRECTED (seed-independent: one document per known
+           root-cause class + the systematic families of `directed_families()`) +
+           DOCS (runtime/mdgen.py, modes 'free' and 'normal'),
   for b in {False, True}:   r = MarkdownRenderer(normalize_whitespace=b).render(Document(x))
     c09a 'same-meaning'       HtmlRenderer().render(Document(r)) == HtmlRenderer().render(Document(x))
                               and Document(r).footnotes == Document(x).footnotes (parsed under HtmlRenderer)
@@ -17,6 +19,7 @@ Failing generated documents are shrunk structurally (mdgen.shrink) inside the ge
 `input` is a (locally) minimal document and the key is stable:  '<contract>|<repr(min input)>|nw=<b>'.
 Spec examples are reported as  '<contract>|spec:<example number>|nw=<b>'.
 """
+import json
 import os
 import re
 import sys
@@ -81,6 +84,302 @@ DIRECTED = [
 ]
 
 
+# --------------------------------------------------------------------------------------------
+# Directed families (seed-independent, enumerated; nothing here imports or consults mistletoe).
+# They cover the constructs whose treatment by a parser/renderer depends on how the text is laid
+# out in lines, which the random generator reaches rarely or not at all:
+#   lazy     lazy continuation lines (lines that lost some or all of their container prefixes) whose
+#            last line looks like a setext underline or a block start, in quotes of depth 1-3, list
+#            items, and quote/list mixtures; each with its fully prefixed twin
+#   code     code spans whose content starts / ends with a line break (with and without blanks)
+#   inline   emphasis, links (text / destination / title on different lines), images, reference
+#            links, raw HTML and hard breaks broken across lines at their delimiters
+#   setext   setext headings with 2-3 content lines (indentation, hard breaks, inline spanning lines)
+#   cont     paragraph continuation lines that begin with characters that start (or nearly start) a block
+#   defs     link reference definitions with multi-line labels / destinations / titles
+#   tables   short rows, empty cells, escaped pipes, over-long rows, lazy rows, blocks right after a table
+#   lists    nested lists with different markers, indents and paddings; identical siblings
+#   misc     empty content, identical siblings, non-ASCII / astral characters, runs of blank lines
+#   uspace   a Unicode space (Zs, not U+0020) at the start of a paragraph line
+# Every family member is placed in several container contexts by wrap().  Excluded as in the generated
+# domain: character references, backslashes in destinations/titles, continuation lines indented >= 4,
+# tabs, line separators other than '\n' (also U+000B, U+000C, U+001C-1E, U+0085, U+2028, U+2029).
+# --------------------------------------------------------------------------------------------
+def wrap(stack, lines, keep=()):
+    """`lines` as the content of the container stack (outermost first; '>' = block quote, anything
+    else = list marker).  Line i > 0 keeps only its keep[i] outermost prefixes (None/absent: all):
+    fewer makes it a lazy continuation line."""
+    out = []
+    for i, l in enumerate(lines):
+        k = keep[i] if i < len(keep) and keep[i] is not None else len(stack)
+        s = l
+        for d in range(len(stack) - 1, -1, -1):
+            c = stack[d]
+            if i and d >= k:
+                continue
+            if c == '>':
+                s = ('> ' + s) if s else '>'
+            elif i == 0:
+                s = c + ' ' + s.lstrip(' ')
+            else:
+                s = (' ' * (len(c) + 1) + s) if s else ''
+        out.append(s)
+    return '\n'.join(out) + '\n'
+
+
+BLOCK_STACKS = ((), ('>',), ('-',), ('1.',), ('>', '>'), ('-', '>'), ('>', '-'), ('-', '-'), ('10.', '>', '-'))
+
+
+def blocks_ctx(lines, stacks=BLOCK_STACKS, tails=((), ('', 'z'), ('z',))):
+    return [wrap(stack, list(lines) + list(tail)) for stack in stacks for tail in tails]
+
+
+LAZY_LAST = [['==='], ['='], ['---'], ['-'], ['***'], ['___'], ['* * *'], ['# x'], ['#'], ['#x'], ['- x'], ['+ x'],
+             ['* x'], ['1. x'], ['1) x'], ['2. x'], ['10. x'], ['+'], ['*'], ['1.'], ['> x'], ['>'],
+             ['```', 'c', '```'], ['~~~', 'c', '~~~'], ['``` py', 'c', '```'], ['<div>'], ['<!-- c -->'], ['<span>'],
+             ['| x |'], ['| x |', '| - |'], ['[foo]: /u'], [' ==='], ['   ---'], ['  - x'], ['   # x'], ['\\# x'], ['x']]
+LAZY_STACKS = [('>',), ('>', '>'), ('>', '>', '>'), ('-', '>'), ('1.', '>'), ('>', '-'), ('-',), ('10.',), ('-', '-'),
+               ('>', '1.', '>')]
+
+
+def fam_lazy():
+    out = []
+    for stack in LAZY_STACKS:
+        n = len(stack)
+        for head in (['a'], ['a', 'b']):
+            for last in LAZY_LAST:
+                for k in range(n + 1):              # k == n: the fully prefixed twin
+                    hk = [[None] * len(head)]
+                    if len(head) == 2 and k < n:
+                        hk.append([None, k])        # the middle line lazy as well
+                    for h in hk:
+                        keep = h + [k] * len(last)
+                        out.append(wrap(stack, head + last, keep))
+                        out.append(wrap(stack, head + last + ['c'], keep + [None]))
+                        if k < n:
+                            out.append(wrap(stack, head + last + ['c'], keep + [k]))
+    return out
+
+
+INLINE_CTX = [((), None), (('>',), None), (('>',), 0), (('-',), None), (('-',), 0), (('1.',), None), (('>', '>'), 1),
+              (('>', '>'), 0), (('-', '>'), None), (('-', '>'), 0), (('>', '-'), 1), (('>', '-'), 0), (('-', '-'), None)]
+
+
+def inline_ctx(text, tails=((), ('', 'z'))):
+    """the inline text (may contain '\n') as a paragraph in every context of INLINE_CTX: all lines
+    prefixed, or the lines after the first one lazy (keeping the k outermost prefixes)"""
+    out = []
+    lines = text.split('\n')
+    for stack, k in INLINE_CTX:
+        if k is not None and len(lines) == 1:
+            continue
+        for tail in tails:
+            keep = [None] + [k] * (len(lines) - 1) + [None] * len(tail)
+            out.append(wrap(stack, lines + list(tail), keep))
+    return out
+
+
+CODE_BODIES = ['\na', 'a\n', '\na\n', ' \na', 'a \n', ' \na \n', '\n a', 'a\n ', '\n a\n ', '\na b\n', 'a\nb', 'a \n b',
+               '\n\xe9\n', '\n`\n', '\n`a`\n', '\n', ' \n ', '\n \n', '\na\nb\n', '  \na', 'a\\\nb', '\n*a*\n', '\n- a',
+               '\n# a', '\n> a', 'a\n===', '\n1. a\n']
+
+
+def fam_code():
+    out = []
+    for body in CODE_BODIES:
+        for n in (1, 2, 3):
+            if '`' * n in body or n == 1 and '`' in body:
+                continue
+            for pre, post in (('', ''), ('x ', ' y'), ('*', '*')):
+                text = pre + '`' * n + body + '`' * n + post
+                if any(l.lstrip(' ').startswith('```') for l in text.split('\n')):
+                    continue        # a line starting with ``` is a fence, not a code span
+                out.extend(inline_ctx(text))
+    return out
+
+
+INLINE_BROKEN = [
+    '*a\nb*', '_a\nb_', '**a\nb**', '__a\nb__', '~~a\nb~~', '*a\n**b\nc**\nd*', '***a\nb***', '*a  \nb*', '**a\\\nb**',
+    'x*\na*', '*a\n*x', '**\na**', 'x **a\n** y', '_a_\n_b_', '*a*\n*a*', 'a*\n*b',
+    '[a\nb](/u)', '[a](\n/u)', '[a](/u\n"t")', '[a](/u "t\nu")', '[a](/u\n)', '[a](\n/u\n"t"\n)', "[a](</u>\n't')",
+    '[a](/u (t\nu))', '[a](\n</u v>\n)', '[a\nb](\n/u\n"t\nu"\n)', '[a](  \n/u  \n"t"  \n)', '[a]\n(/u)',
+    '[a](/u\n\'t\nu\nv\')', '[*a\nb*](/u)', '[`a\nb`](/u)', '[![a\nb](/i)](/u)', '[a](/u "t\n# u")', '[a](/u "t\n- u")',
+    '[a](/u "t\n===")', '![a\nb](/u)', '![a](\n/u)', '![a](/u\n"t")', '![a](/u "t\nu")', '![a](\n/u\n"t"\n)',
+    '![*a\nb*](/u)', '![a\nb][foo]', '[a\nb][foo]', '[a][foo\nbar]', '[a\nb][]', '[a\nb]', '[foo\nbar][]', '[foo\nbar]',
+    '[a]\n[foo]', '[a][\nfoo]', '[a][foo\n]', '<a\nhref="x">', '<a href="x"\ntitle="y">z</a>', 'a <!-- x\ny --> b',
+    '<b\n>', '<?x\ny?>', '<a href="\nx">', '<http://a.b/c>\n<d@e.fg>', 'a\\\n\\\nb', 'a  \n  \nb',
+]
+INLINE_DEFS = '\n[foo]: /u\n[foo bar]: /v "t"\n[a b]: /w\n'
+
+
+def fam_inline():
+    out = []
+    for t in INLINE_BROKEN:
+        for pre, post in (('', ''), ('x ', ' y')):
+            for x in inline_ctx(pre + t + post):
+                out.append(x + (INLINE_DEFS if '[' in t else ''))
+    return out
+
+
+SETEXT_TEXT = [['a', 'b'], ['a', 'b', 'c'], ['  a', '   b'], ['a  ', 'b'], ['a\\', 'b'], ['*a', 'b*'], ['`a', 'b`'],
+               ['[a', 'b](/u)'], ['a', '#b'], ['a', '-b'], ['a', '2. b'], ['a', '+'], ['a', '1.'], ['a', '| b |'],
+               ['a', '= b'], ['a', '<span>'], ['a', '\\- b'], ['a', '[foo]: /u'], ['\xe9', '\U0001f600'], ['a', 'a'],
+               ['a', '   b  ', ' c'], ['**a', 'b**  ', 'c'], ['![a', 'b](/u "t', 'u")']]
+UNDERLINES = ['===', '=', '---', '-', ' ===', '   ---', '---   ', '=' * 10]
+
+
+def fam_setext():
+    return [x for t in SETEXT_TEXT for u in UNDERLINES for x in blocks_ctx(t + [u])]
+
+
+CONT = ['#b', '#', '# b', '####### b', '-b', '- b', '+b', '+ b', '*b', '* b', '-', '+', '*', '1.', '1. b', '1) b', '2. b',
+        '10) b', '1.b', '1986. b', '=b', '= b', '==', '--', '***', '**', '* * *', '___', '-- -', '> b', '>b', '>', '```',
+        '``', '``` b', '~~~', '~~', '| b |', 'b | c', '|', '[b]: /u', '[foo]: /u', '<div>', '<span>', '</div>',
+        '<!-- c -->', '<?x?>', '<a@b.co>', '\\# b', '\\- b', '1\\. b', '\\> b', '\\```', '\\+', '\\=', '`#`', '*-*', '&',
+        ':', '\\', '\xe9', '\U0001f600', 'a']
+
+
+def fam_cont():
+    out = []
+    for c in CONT:
+        for ind in ('', ' ', '   '):
+            lines = ['a', ind + c]
+            if c.startswith(('```', '~~~')):
+                lines += ['k', c[:3]]       # (an empty fenced block is a known-delicate class of its own)
+            out.extend(blocks_ctx(lines, tails=((), ('', 'z'), ('===',))))
+    return out
+
+
+DEF_FORMS = ['[foo]: /u "t\nu"', "[foo]: /u 't\nu\nv'", '[foo]: /u (t\nu)', '[foo]: /u\n"t\nu"', '[foo]:\n/u\n"t"',
+             '[foo]:\n  /u\n   "t\n u"', "[foo]: </u v>\n't'", '[foo]: /u "t\n\nu"', '[foo]: /u "t" x', '[foo]: /u\n"t" x',
+             '[foo]: /u\n[bar]: /v "t\nu"', '[foo]: /u "  t\n  u  "', '[fo\no]: /u "t"', '[foo]: /u "t"\n[foo]: /v "w"',
+             '[foo]: /u "# t\n- u"', '[foo]: /u "t\n===\n"', '[foo]: /u "t\n> u"', '[foo]: /u\n\'multi\nline\'\ny',
+             '[foo]: /u "\xe9\n\U0001f600"', '[foo]: /u\n"t', '[foo]: /u "t\nu', '[foo]: <>\n"t"',
+             '[foo]: /u\n   (t)\n[bar]: /v', '[foo]: /u "a\n[bar]: /v"', 'x\n[foo]: /u "t\nu"', '[foo]: /u "t\nu"\nx',
+             '[foo]: /u\n===', '[foo]: /u\n---', '[foo]: /u "t"\n===', '[foo]:\n/u\n# x']
+
+
+def fam_defs():
+    out = []
+    use = '[foo] [bar] [fo o]'
+    for d in DEF_FORMS:
+        lines = d.split('\n')
+        for stack in ((), ('>',), ('-',), ('1.',), ('>', '>'), ('-', '>'), ('>', '-')):
+            out.append(wrap(stack, lines) + '\n' + use + '\n')
+            out.append(wrap(stack, lines + ['', use]))
+            out.append('[foo] [bar]\n\n' + wrap(stack, lines))
+            for k in range(len(stack)):     # the lines after the first one lazy
+                out.append(wrap(stack, lines, [None] + [k] * (len(lines) - 1)) + '\n' + use + '\n')
+    return out
+
+
+TABLES = [
+    ['| a | b |', '| - | - |', '| c |'], ['| a | b |', '| - | - |', '| c'], ['| a | b |', '| - | - |', 'c'],
+    ['| a | b |', '| - | - |', '|'], ['| a | b |', '| - | - |', '| | d |'], ['| a | b |', '| - | - |', '|  |  |'],
+    ['| a | b | c |', '|:-|:-:|-:|', '| d | e |', '| f |'], ['| a | b |', '| - | - |', '| `x\\|y` | z |'],
+    ['| a | b |', '| - | - |', '| x \\| y | z |'], ['| a \\| b |', '| - |'], ['| a | b |', '| - | - |', '| \\\\| z |'],
+    ['| a |', '| - |', '| \xe9\U0001f600 |'], ['| a |', '| - |', '| *x* **y** [l](/u) `c` |'], ['a | b', '-|-', 'c | d'],
+    ['| a | b |', '| - | - | - |'], ['| a | b |', '| - |'], ['|a|', '|-|', '|b|', '|c|', '|b|'],
+    ['| a | a |', '| - | - |', '| a | a |', '| a | a |'], ['| a | b |', '| - | - |', '| c | d | e |'], ['| a |', '|---|'],
+    ['|  a  |', '| :-: |', '| bbbbbbb |'], ['| a | b |', '| -: | :- |', '|c|d|'], ['a|b', ':-|-:', 'c'],
+    ['| a | b |', '| - | - |', '| c | d', 'e | f |'], ['| a | b |', '| - | - |', '| c | d |', '', '| e | f |'],
+    ['| a | b |', '| - | - |', '| c | d |', '# h'], ['| a | b |', '| - | - |', '| c | d |', '> q'],
+    ['| a | b |', '| - | - |', '| c | d |', '- l'], ['| a | b |', '| - | - |', '| c | d |', '---'],
+    ['| a | b |', '| - | - |', '| c | d |', '    k'], ['| a | b |', '| - | - |', '| c | d |', '```', 'k', '```'],
+    ['| [x](/u "a b") | ![i](/s) |', '| - | - |', '| <b>h</b> | <http://a.b> |'], ['| a |', '| - |', '| \\* |'],
+    ['| a |', '| - |', '| x  y |'], ['|   |', '| - |', '|   |'], ['| a | b |', '| - | - |', '| c |  |', '|  | d |'],
+]
+
+
+def fam_tables():
+    out = []
+    for t in TABLES:
+        out.extend(blocks_ctx(t))
+        out.extend(blocks_ctx(['p'] + t, tails=((),)))
+        if '|' in t[-1]:
+            for stack in (('>',), ('-',), ('>', '>'), ('-', '>'), ('>', '-')):
+                for k in range(len(stack)):      # the last row lazy
+                    out.append(wrap(stack, t, [None] * (len(t) - 1) + [k]))
+    return out
+
+
+LISTS = [
+    '- a\n  + b\n    * c\n      1. d', '- a\n+ b\n* c', '- a\n- a\n- a', '1. a\n2) b\n3. c', ' - a\n  - b\n   - c',
+    '- a\n    - b', '-   a\n    - b', '1.  a\n    - b\n    2. c', '10. a\n    - b', '10. a\n   - b',
+    '- a\n\n  + b\n\n    * c', '- a\n  + b\n- c\n  + d', '* a\n  1. b\n  2. c\n* d', '1. a\n   - b\n\n   - c\n2. d', '- - - a',
+    '- 1. - a\n       b', '- a\n\n    b', '- a\n\n      b', '-  a\n   - b\n     - c\n   - d\n-  e', '   - a\n     - b',
+    '  1. a\n     1. b\n        1. c', '- a\n   b', '- a\n b', '- a\nb', '- a\n  - b\nc', '- a\n  - b\n c',
+    '- a\n  - b\n\n    c\n\n  d', '1. a\n\n   b\n2. c', '- a\n- \n- c', '- a\n-\n- c', '+ a\n\n\n+ b',
+    '- a\n  ```\n  x\n  ```\n  + b', '- \xe9\n  + \U0001f600\n    * \xe9', '1. a\n1. a\n1. a', '0. a', '007. a\n     b',
+    '123456789. a', '- a\n\n- b\n- c', '- a\n- b\n\n- c', '- a\n\n  b\n- c', '- a\n  - b\n\n  - c\n- d',
+    '*   a\n\n    b\n\n        c', '- a\n1. b\n- c', '- a\n * b\n  + c\n   - d', '1. a\n 2. b\n  3. c\n   4. d', '-    a',
+    '-     a', '1.     a', '- \n  a', '-\n  a', '1.\n   a', '- a\n  > b\n  > - c\n  >   d',
+    '- # a\n- > b\n- ```\n  c\n  ```\n-     d', '- a\n\n  # b\n\n  c', '- [foo]: /u\n- [foo]', '* a\n* * *\n* b', '- a\n- - -',
+    '+ a\n  - b\n    + c\n      - d\n        + e', '1) a\n   1) b\n      1) c', '- a\n  b\n- c\n  d', '- a\n\n\n  b',
+    '1. a\n\n2. b\n\n3. c', '- a\n  - b\n  - c\n\n  d', '- a\n+ a\n- a\n+ a', '- **a\n  b**\n- `c\n  d`',
+]
+
+
+def fam_lists():
+    stacks = ((), ('>',), ('-',), ('1.',), ('>', '>'), ('>', '-'), ('-', '>'))
+    return [x for l in LISTS for x in blocks_ctx(l.split('\n'), stacks, ((), ('', 'z'), ('z',), ('', '    k')))]
+
+
+MISC = [
+    # empty content
+    '>', '> ', '-', '- ', '#', '# #', '## ##', '**', '[]()', '[](/u)', '![](/u)', '[]', '``', '` `', '`  `', '<>', '[]: /u',
+    '|\n|-|', '| |\n|-|', '```\nx\n```', '~~~ py\n~~~~', '* *', '__', '[a]()', '[a](<>)', '![]()', '# \\#', '***\n', '>\n>',
+    '> \n> a',
+    # identical siblings
+    'a\n\na', '# a\n# a', '> a\n\n> a', '***\n***', '---\n---', '```\nx\n```\n```\nx\n```', '[foo]: /u\n[foo]: /u\n\n[foo]',
+    '    a\n\n    a', '<div>\n</div>\n\n<div>\n</div>', 'a\n===\na\n===', 'a\n---\na\n---', '- a\n- a\n\n- a\n- a', '*a* *a*',
+    '`a` `a`', '[a](/u) [a](/u)', '<b><b>', '| a |\n| - |\n\n| a |\n| - |', '> > a\n\n> > a', '1. a\n1. a', 'a  \na  \na',
+    # non-ASCII / astral
+    '\U0001f600', '# \U0001f600 #', '[\U0001f600](/\U0001f600 "\U0001f600")', '`\U0001f600`',
+    '| \U0001f600 |\n| :-: |\n| \xe9 |', '[\U0001f600]: /\U0001f600 \'\xe9\'\n\n[\U0001f600]', '*\U0001f600*', '**\xe9**\xe9',
+    '\U0001f600\n===', '- \U0001f600\n  \xe9', '> \U0001f600\n\U0001f600', '![\U0001f600](\xe9)', '<http://\xe9.\U0001f600/>',
+    '~~\U0001f600~~', '```\U0001f600\n\U0001f600\n```', '    \U0001f600', '<\xe9>', '\xe9  \n\xe9', 'ＡＢ', 'á',
+    '| \xe9 | \U0001f600\U0001f600\U0001f600\U0001f600 |\n| - | - |\n| \U0001f600 | e |', '[\xc9]: /u\n\n[\xe9]', 'ß\n\n[SS]: /u',
+    # blank lines
+    'a\n\n\n\nb', '\n\na', 'a\n\n', '> a\n>\n>\n> b', '> a\n\n> b', '- a\n\n\n  b', '```\n\n\nx\n\n```', '    a\n\n\n    b',
+    '# a\n\n\n# b', '> a\n>\n\n>\n> b', '- a\n\n- b\n\n\n- c', '> ```\n> x\n>\n> y\n> ```', '- ```\n  x\n\n  y\n  ```',
+    '>     a\n>\n>     b', '-     a\n\n      b', '<div>\n\n</div>', '<pre>\n\n\nx\n</pre>', '[foo]: /u\n\n\n[foo]',
+    'a\n\n[foo]: /u\n\nb', '| a |\n| - |\n\n\nb', '***\n\n\n***',
+]
+
+
+def fam_misc():
+    return [x for m in MISC for x in blocks_ctx(m.split('\n'))]
+
+
+USPACES = ['\xa0', '\u3000']       # NO-BREAK SPACE, IDEOGRAPHIC SPACE
+
+
+def fam_uspace():
+    out = []
+    for w in USPACES:
+        for lines in ([w + '# a'], [w + '- a'], [w + '> a'], [w + '***'], [w + '1. a'], ['a', w + '# b'], ['a', w + '==='],
+                      ['a', w + '- b'], [w + 'a'], ['a' + w], ['a', w + 'b'], ['#' + w + 'a'], ['-' + w + 'a'], ['a' + w + '#'],
+                      ['*' + w + 'a*'], ['`' + w + 'a' + w + '`'], ['| a' + w + '|', '| - |']):
+            out.extend(blocks_ctx(lines, stacks=((), ('>',)), tails=((), ('z',))))
+    return out
+
+
+FAMILIES = [('lazy', fam_lazy), ('code', fam_code), ('inline', fam_inline), ('setext', fam_setext), ('cont', fam_cont),
+            ('defs', fam_defs), ('tables', fam_tables), ('lists', fam_lists), ('misc', fam_misc), ('uspace', fam_uspace)]
+
+
+def directed_families():
+    """-> [(ident, text)], deterministic, without duplicates; ident = '<family>:<index in the family>'"""
+    seen, out = set(t for _, t in DIRECTED), []
+    for name, fn in FAMILIES:
+        for i, x in enumerate(fn()):
+            if x not in seen:
+                seen.add(x)
+                out.append(('%s:%d' % (name, i), x))
+    return out
+
+
 def html_of(text):
     _clean()
     with HtmlRenderer() as h:
@@ -115,20 +414,42 @@ def check(x, nw, normal):
     return bad
 
 
-_FENCE = re.compile(r'^[> ]*(?:(?:[-+*]|\d{1,9}[.)]) +)*[> ]*(`{3,}|~{3,})[^`\n]*$')
+_MARK = r'(?:[-+*]|\d{1,9}[.)])'
+_PFX = r'(?:[> ]|%s(?= |$))*' % _MARK           # container prefixes: quote markers, blanks, list markers, in any order
+_FENCE = re.compile(r'^%s(`{3,}|~{3,})[^`\n]*$' % _PFX)
+_EMPTY_ITEM = re.compile(r'^%s%s *$' % (_PFX, _MARK))
+_USPACE_START = re.compile(r'^%s[\xa0\u1680\u2000-\u200a\u202f\u205f\u3000]' % _PFX, re.M)
 
 
 _GAINED = re.compile(r'^[> ]*(`{3,}|~{3,})[^\n]*\n[> ]*\n[> ]*\1 *$', re.M)
 
 
-def _ncells(line):
-    return max(len([c for c in re.split(r'(?<!\\)\|', v.strip()) if c])
-               for v in (line, re.sub(r'^[> ]*', '', line)))
+_READINGS = (lambda l: l, lambda l: re.sub(r'^[> ]*', '', l), lambda l: re.sub('^' + _PFX, '', l))
 
 
-def classify(x, contract, nw, fails_without_nw, observed=None):
-    """Heuristic root-cause slug from the (minimal) failing text."""
+def _ncells(line, reading):
+    """number of table cells of the line read as it is / without its quote markers / without all its container prefixes"""
+    return len([c for c in re.split(r'(?<!\\)\|', reading(line).strip()) if c])
+
+
+_NONCANON_ITEM = re.compile(r'^%s(?: {1,3}%s(?: |$)|%s {2,}\S)' % (_PFX, _MARK, _MARK), re.M)
+_DEEP_QUOTED = re.compile(r'^%s> {5,}\S' % _PFX)
+
+
+def _nquote(line):
+    return re.match(_PFX, line).group(0).count('>')
+
+
+def _nonblank(text):
+    return len([l for l in text.split('\n') if l.strip('> ')])
+
+
+def classify(x, contract, nw, fails_without_nw, observed=None, strict=False):
+    """Heuristic root-cause slug from the (minimal) failing text.  `strict` (used for the directed documents, which
+    are small and need no shrinking) narrows the three catch-all rules to the exact shape of their root cause, so that
+    a failure with another cause is reported as 'unclassified' instead of being absorbed by a known class."""
     lines = x.split('\n')
+    rendered = observed.get('markdown') if isinstance(observed, dict) else observed if isinstance(observed, str) else None
     if contract == 'noraise':
         return 'parser-raises-%s' % str(observed).split(':')[0].lower()
     if contract == 'c09c' and isinstance(observed, str) and \
@@ -139,8 +460,8 @@ def classify(x, contract, nw, fails_without_nw, observed=None):
         return 'character-reference-decoded'
     if re.search(r'\]\([^)\n]*\\[^)\n]*\)', x) or re.search(r'^ {0,3}\[[^\]]+\]:.*\\', x, re.M):
         return 'escape-in-destination-or-title-dropped'
-    if nw and not fails_without_nw:
-        return 'nw-reindent-captures-following-indented-block'
+    if nw and not fails_without_nw and (not strict or _NONCANON_ITEM.search(x)):
+        return 'nw-reindent-captures-following-indented-block'     # (strict: some item is not in the 'leader + 1 blank' form)
     if '\\|' in x:
         return 'table-escaped-pipe-unescaped'
     for i, l in enumerate(lines[:-1]):
@@ -159,22 +480,29 @@ def classify(x, contract, nw, fails_without_nw, observed=None):
         if body != '' and body.strip() == '':
             return 'whitespace-only-line-blanked'
     for i, l in enumerate(lines[:-1]):
-        if re.match(r'^[> ]*(?:(?:[-+*]|\d{1,9}[.)]) *)+$', l) and i + 1 < len(lines) - 1 and \
+        if _EMPTY_ITEM.match(l) and i + 1 < len(lines) - 1 and \
                 re.sub(r'^[> ]*', '', lines[i + 1]) == '':
             return 'empty-list-item-swallows-blank-lines'
     for i, l in enumerate(lines[:-2]):
         if '|' in l and re.fullmatch(r'[> ]*[-:| ]*-[-:| ]*', lines[i + 1]) and '|' in lines[i + 1]:
             j = i + 2
             while j < len(lines) and '|' in lines[j]:
-                if _ncells(lines[j]) > max(_ncells(l), _ncells(lines[i + 1])):
+                if any(_ncells(lines[j], rd) > max(_ncells(l, rd), _ncells(lines[i + 1], rd)) for rd in _READINGS):
                     return 'table-row-wider-than-header-widens-table'
                 j += 1
     if contract == 'c09b' and re.search(r'^[> ]*#{1,6}( +#+)+ *$', x, re.M):
         return 'empty-atx-heading-closing-sequence-lost-on-second-pass'
-    if re.search(r'^[> ]*(?:[-+*]|\d{1,9}[.)]) *\n[> ]*[^> \n]', x, re.M):
-        return 'blank-first-line-item-joined-to-marker-line'
+    if _USPACE_START.search(x):
+        return 'unicode-space-at-line-start-stripped'
+    if re.search(r'^[> ]*(?:[-+*]|\d{1,9}[.)]) *\n[> ]*[^> \n]', x, re.M) and \
+            (not strict or rendered is not None and _nonblank(rendered) < _nonblank(x)):
+        return 'blank-first-line-item-joined-to-marker-line'        # (strict: two lines were in fact joined)
     for i, l in enumerate(lines[:-1]):
-        if i and l.strip() and not l.lstrip().startswith('>') and lines[i - 1].lstrip().startswith('>'):
+        if i and l.strip() and not l.lstrip().startswith('>') and lines[i - 1].lstrip().startswith('>') and not strict:
+            return 'unquoted-line-after-quote-lazy-heuristic-flips'
+        # strict: a line with fewer quote markers right after a quoted line whose content is indented >= 4 (the
+        # indentation Quote.read takes for "inside a code block", which the renderer then changes)
+        if i and l.strip() and strict and _DEEP_QUOTED.match(lines[i - 1]) and _nquote(l) < _nquote(lines[i - 1]):
             return 'unquoted-line-after-quote-lazy-heuristic-flips'
     return 'unclassified'
 
@@ -201,7 +529,7 @@ def work(job):
         if case[0] == 'spec':
             tree, x, normal, ident = None, case[2], False, 'spec:%d' % case[1]
         elif case[0] == 'directed':
-            tree, x, normal, ident = None, case[2], case[3] == 'normal', 'directed:%d' % case[1]
+            tree, x, normal, ident = None, case[2], case[3] == 'normal', 'directed:%s' % case[1]
         else:
             tree, x = mdgen.gen(case[2], case[1])
             normal, ident = case[1] == 'normal', 'gen:%s:%d' % (case[1], case[2])
@@ -246,7 +574,7 @@ def work(job):
                     without = contract in per_nw.get(False, ()) if nw else True
                     if nw and mx != x:
                         without = any(b[0] == contract for b in check(mx, False, normal))
-                    cls = classify(mx, contract, nw, without, observed)
+                    cls = classify(mx, contract, nw, without, observed, strict=case[0] == 'directed')
                 res['failures'].append({
                     'key': key, 'contract': contract, 'class': cls,
                     'input': {'markdown': mx, 'normalize_whitespace': nw, 'source': ident},
@@ -302,7 +630,12 @@ def run(tier, seed, workers):
     n_free, n_normal = (10000, 5000) if tier == 'quick' else (200000, 80000)
     base = seed * 10_000_000
     cases = [('spec', e['example'], e['markdown']) for e in spec_examples()]
-    cases += [('directed', i, text, mode) for i, (mode, text) in enumerate(DIRECTED)]
+    cases += [('directed', 'known:%d' % i, text, mode) for i, (mode, text) in enumerate(DIRECTED)]
+    fams = directed_families()
+    cases += [('directed', ident, text, 'free') for ident, text in fams]
+    fam_counts = {}
+    for ident, _ in fams:
+        fam_counts[ident.split(':')[0]] = fam_counts.get(ident.split(':')[0], 0) + 1
     cases += [('gen', 'free', base + i) for i in range(n_free)]
     cases += [('gen', 'normal', base + i) for i in range(n_normal)]
     chunks = [cases[i:i + CHUNK] for i in range(0, len(cases), CHUNK)]
@@ -358,14 +691,24 @@ def run(tier, seed, workers):
     for f in sorted(failures.values(), key=order):
         minimal.setdefault(f['class'], {'contract': f['contract'], 'key': f['key'], 'input': f['input']})
     out.update({
-        'domain': ('SPEC: the 652 CommonMark 0.30 examples; %d directed documents (one per known root-cause '
-                   'class, seed-independent); DOCS: %d mdgen documents in mode free '
+        'domain': ('SPEC: the 652 CommonMark 0.30 examples; DIRECTED (seed-independent): %d documents, one per '
+                   'known root-cause class, + %d documents of the systematic families %s (lazy continuation '
+                   'lines ending in a setext underline / block start at quote depth 1-3 and in list items; code '
+                   'spans starting/ending with a line break; emphasis, links, images, reference links, raw HTML '
+                   'broken across lines at their delimiters; multi-line setext headings; paragraph continuation '
+                   'lines starting with block-start characters; link definitions with multi-line parts; tables '
+                   'with short/over-long/lazy rows, empty cells, escaped pipes; nested lists with different '
+                   'markers and indents; empty content, identical siblings, non-ASCII/astral text, blank-line '
+                   'runs; Unicode spaces at line starts), each family member in the container contexts '
+                   'top level / quote / list item / quote-in-list / list-in-quote / depth 3; '
+                   'DOCS: %d mdgen documents in mode free '
                    '(every block/inline construct, canonical and non-canonical spellings, container '
                    'nesting <= 4, measured max depth %d) + %d in mode normal (renderer normal form), '
                    'generator seeds %d.. ; each x normalize_whitespace in {False, True}. Excluded by '
                    'construction: character references, backslashes in link destinations/titles, '
                    'paragraph continuation lines indented >= 4, tabs, non-\\n line separators'
-                   % (len(DIRECTED), n_free, maxdepth, n_normal, base)),
+                   % (len(DIRECTED), len(fams), json.dumps(fam_counts, sort_keys=True).replace('"', ''),
+                      n_free, maxdepth, n_normal, base)),
         'rule': ('seeded structural generation (runtime/mdgen.py); a case is non-trivial iff the '
                  'HTML of x contains an element other than <p>; distinct_nontrivial counts distinct '
                  'such documents; contracts per case: noraise, c09a, c09b (+ c09c for mode normal, nw=False)'),
@@ -373,6 +716,7 @@ def run(tier, seed, workers):
         'exhaustive': False,
         'samples': samples[:8],
         'node_kind_counts': kinds,
+        'directed_family_counts': fam_counts,
         'failures_total': len(seen),
         'class_counts': classes,
         'failures_by_class': by_class,
